@@ -434,15 +434,17 @@ def run_dims(sc: dict[str, Any]) -> dict[str, Any]:
         stall = False
         try:
             sim.run(sc['end']); rest()
+            from vf import streaming
+            steps = streaming.segments(sim.recorder.events, streaming.conf_from_settings(op.settings), sc['id'], end_t=sc['end'], pausable={PLURAL})
             op.finish()
         except Stall:
-            stall = True
+            stall = True; steps = []
         for e in sim.recorder.events:
             if e['ev'] == 'env.serve': events.append({'ev': 'serve', 'd': e['d']})
             elif e['ev'] == 'env.unserve': events.append({'ev': 'unserve', 'd': e['d']})
             elif e['ev'] == 'peer.eval' and e.get('loop') == 'a': events.append({'ev': 'eval', 'd': e.get('ns') or '*', 'paused': bool(e.get('paused'))})
             elif e['ev'] == 'env.rest': events.append({'ev': 'rest', 'watching': e['watching']})
-        return {'id': sc['id'], 'events': events, 'stall': stall, 'scenario': sc}
+        return {'id': sc['id'], 'events': events, 'stall': stall, 'scenario': sc, 'steps': steps}
     finally:
         sim.close()
 
